@@ -827,21 +827,6 @@ def parr_token(pa):
     return 'P name=%s props=%s' % (pa.name, ';'.join(items))
 
 
-def canon_dest_block(db, var2cls):
-    """same text as the driver's showDestBlock"""
-    def asg(d):
-        items = ['%s<%s.%s' % (k, v[0], v[1]) for k, v in sorted(d.items())]
-        return ','.join(items) if items else '_'
-
-    def names(calls, meths):
-        seen = []
-        for var, m, _ in calls:
-            if m in meths and var not in seen:
-                seen.append(var)
-        return seen
-    return db, asg
-
-
 def analyse_program(spec, work, want_code=False):
     """build the real objects for a spec; returns dict with the generated
     source's parse, the wiring lines for the driver and oracle findings"""
